@@ -5,6 +5,10 @@
 
 package config
 
+// The restart flag is raised by whichever request stages a restart-requiring property and read by
+// every poll of the dashboard: no lock protects it, so it is an atomic.
+//@ ghost global-atomic restartNeeded [C15]
+
 // ---------------------------------------------------------------- overwritable / commitable
 
 //@ props C17 C16
